@@ -7,6 +7,8 @@
 // (generated / generator error / compile error) and the observed behaviour.
 //
 //	genumfarm -seed N -out PREFIX -mode c04|c05|c12 -n FILES -repo DIR -work DIR -gosum FILE [-defs FILE] [-corpus]
+//
+// Order of the definition files of a run: those of -defs, the built-in corpus (-corpus), -n random ones.
 package main
 
 import (
@@ -350,7 +352,7 @@ func main() {
 	repo := flag.String("repo", "", "scratch copy of the repository")
 	work := flag.String("work", "", "scratch working directory")
 	gosum := flag.String("gosum", "", "go.sum for the farm module")
-	defsPath := flag.String("defs", "", "JSON file with a list of definition files to run instead of random ones")
+	defsPath := flag.String("defs", "", "JSON file with a list of definition files to run before the corpus / random ones")
 	corpus := flag.Bool("corpus", false, "prepend the fixed corpus")
 	flag.Parse()
 	if *repo == "" || *work == "" || *gosum == "" {
@@ -359,16 +361,16 @@ func main() {
 	r := gal.NewRand(*seed)
 	var files []FileDef
 	if *defsPath != "" {
+		// definitions given by the driver (stored corpus, minimisation candidates, replay): run first
 		b, err := os.ReadFile(*defsPath)
 		must(err)
 		must(json.Unmarshal(b, &files))
-	} else {
-		if *corpus {
-			files = append(files, corpusFiles(*mode)...)
-		}
-		for i := 0; i < *n; i++ {
-			files = append(files, randomFile(r, *mode))
-		}
+	}
+	if *corpus {
+		files = append(files, corpusFiles(*mode)...)
+	}
+	for i := 0; i < *n; i++ {
+		files = append(files, randomFile(r, *mode))
 	}
 	for i := range files {
 		files[i].Pkg = fmt.Sprintf("p%04d", i)
